@@ -61,6 +61,32 @@ def table_value(dump, key):
     return None
 
 
+def boundary_templates():
+    """Templates whose back-reference numbers sit on the boundaries of every integer type involved in reading them (int, unsigned
+    int, long, unsigned long): both positions of \\M.N, the \\N form, the \\N\\. form, leading zeros; and - for the correspondence
+    of the model's strtoul with the platform's - the sign and blank forms strtoul accepts after the dot (negative numbers wrap, an
+    overflow gives ULONG_MAX whatever the sign).  Numbers whose low 32 (31, 63) bits are a small index are what a truncating
+    conversion would turn into a VALID reference."""
+    nums = set()
+    for b in (2**31, 2**32, 2**33, 3 * 2**32, 2**63, 2**64, 2**64 + 2**32, 2**64 + 2**33):
+        for k in range(-3, 4):
+            nums.add(b + k)
+    nums |= {10**19, 10**20 - 1, 10**20, 10**30 + 1, 10 * 2**64 + 1, 10 * 2**31, 2**31 * 2**32 + 1, 2**96 + 2}
+    strs = [str(n) for n in sorted(nums)] + ['0' * 22 + '1', '0' * 30 + '2', '0' * 12 + str(2**32 + 1), '0' * 5 + str(2**31 - 1)]
+    out = []
+    for s in strs:
+        out += ['\\%s' % s, 'a\\%s\\.b' % s, '\\%s.1' % s, '\\1.%s' % s, '\\0.%s' % s, '\\%s.%s' % (s, s), 'x\\%s.2\\.' % s, '\\1.%s\\.y' % s]
+    neg = set([0, 1, 2, 3, 2**31 - 1, 2**31, 2**31 + 1, 2**32 - 1, 2**32, 2**32 + 1, 2**63 - 1, 2**63, 2**63 + 1, 2**65, 10**20])
+    for b in (2**64 - 2**31, 2**64 - 2**32, 2**64):
+        for k in range(-3, 4):
+            neg.add(b + k)
+    for n in sorted(neg):
+        for sign in ('-', '+', ' ', '\t', ' -', '\t+', '  ', '-0', '+00'):
+            out.append('\\1.%s%d' % (sign, n))
+    out += ['\\1.-', '\\1.+', '\\1. ', '\\1.- 1', '\\1.--1', '\\1.+-1', '\\1.-x', '\\2.-1\\.', '\\1.\\-1']
+    return out
+
+
 def run(rep):
     rng = random.Random(rep.seed)
     sc = vlib.Scratch()
@@ -115,6 +141,17 @@ def run(rep):
         msg = b'To: ' + to + b'\nSubject: ' + rng.choice([b'hx tail', b'h', b'\\2 ${path}']) + b'\nX-Label: ' + rng.choice([b'old', b'\\9', b'${path} \\1']) + \
             b'\n\n' + rng.choice([b'bird line1\n', b'b l\\1\n', b'first\nbig last\n'])
         cases.append(ec.Case(conf, pats, msg, 'new', '1.host', '0'))
+    # numeric boundaries of the reference numbers: every template in two of the four interpolated arguments; both patterns match, so a
+    # number that a narrower integer type would turn into 0..3 resolves to a capture if it is (wrongly) accepted
+    ACTS = ['move "~/dst/%s"', 'label { "l" "%s" }', 'exec { "echo" "%s" }', 'add-header "X-Out" "%s"']
+    btemplates = boundary_templates()
+    bcases = {}
+    for k, t in enumerate(btemplates):
+        for a in (k % 4, (k // 4 + k + 1) % 4):
+            conf = 'maildir "~/md" {\n\tmatch header "To" /(u[^@]*)@(.*)/ and header "Subject" /(.)(x)?(.*)/ %s\n}\n' % (ACTS[a] % t)
+            c = ec.Case(conf, [('(u[^@]*)@(.*)', ''), ('(.)(x)?(.*)', '')], b'To: user@example.com\nSubject: hx tail\n\nbody\n', 'new', '1.host', '0')
+            cases.append(c)
+            bcases[id(c)] = t
     ec.run_cases(h, env, cases, want_spec=False)
     corr_bad, checks, faults = [], [], []
     for c in cases:
@@ -160,11 +197,18 @@ def run(rep):
     pos = 0
     spec_bad = []
     stat = {'templates': 0, 'undefined': 0, 'errors': 0, 'substituted': 0, 'cases': 0}
+    bstat = {'templates': len(btemplates), 'cases': len(bcases), 'judged': 0, 'outside_spec_model_only': 0, 'spec_error': 0, 'impl_error': 0,
+             'model_mismatches': sum(1 for c in corr_bad if id(c) in bcases),
+             'not_evaluated': sum(1 for c in cases if id(c) in bcases and (c.model is None or not (c.impl or '').startswith('MATCH')))}
     for c, e, pre, items in checks:
         res = outs[pos:pos + len(items)]
         pos += len(items)
         stat['cases'] += 1
         stat['templates'] += len(items)
+        if id(c) in bcases:
+            bstat['judged' if not any(r == 'UNDEFINED' for r in res) else 'outside_spec_model_only'] += 1
+            bstat['spec_error'] += any(r == 'ERROR' for r in res)
+            bstat['impl_error'] += len(e) >= 4 and e[3] == 'INTERR'
         if any(r == 'UNDEFINED' for r in res):
             stat['undefined'] += 1
             continue
@@ -222,6 +266,11 @@ def run(rep):
                 'template containing a back-reference or macro' % n,
         'samples': [dict(c.readable(), implementation=c.impl[:300]) for c in rng.sample([x[0] for x in checks] or cases, 3)],
         'distribution': stat,
+        'numeric_boundaries': dict(bstat, rule='back-reference numbers at 2^31, 2^32, 2^33, 3*2^32, 2^63, 2^64, 2^64+2^32, 2^64+2^33 (each -3..+3), 10^19, '
+                                                '10^20, longer, leading zeros; in \\N, \\N\\., \\N.g, \\p.N, \\N.N; each in two of move/label/exec/add-header with two '
+                                                'matching patterns; judged by Spec.interp (a number above INT_MAX is an error: message untouched); after the dot also the '
+                                                'sign/blank forms strtoul accepts with |n| around 2^31, 2^32, 2^63, 2^64-2^32, 2^64-2^31, 2^64 (outside the '
+                                                'specification: Model.strtoul against glibc strtoul through the exact model comparison)'),
         'correspondence_mismatches': len(corr_bad),
         'spec_failures': len(spec_bad),
         'sanitizer_faults': len(faults),
